@@ -33,12 +33,21 @@ pub struct CaseReport {
     pub viol: Option<Viol>,
 }
 
+thread_local! {
+    /// summed counters a property may bump while running a case (e.g. crash points evaluated)
+    pub static COUNTERS: RefCell<BTreeMap<String, u64>> = const { RefCell::new(BTreeMap::new()) };
+}
+pub fn bump(name: &str, by: u64) {
+    COUNTERS.with(|c| *c.borrow_mut().entry(name.to_string()).or_insert(0) += by);
+}
+
 pub trait Prop: 'static {
     type Case: Serialize + DeserializeOwned + Debug + Clone + 'static;
     const ID: &'static str;
     const LEVEL: &'static str = "exploration";
     /// build profiles the workers run under ("checked", "release")
     const PROFILES: &'static [&'static str] = &["checked"];
+    const SHRINK_ITERS: u32 = 2000;
     fn strategy(tier: Tier) -> BoxedStrategy<Self::Case>;
     fn run(case: &Self::Case) -> CaseReport;
     fn cases(tier: Tier) -> u64;
@@ -118,6 +127,8 @@ pub struct WorkerResult {
     pub foreign_examples: BTreeMap<String, String>,
     pub violation: Option<ViolationOut>,
     pub wall_s: f64,
+    #[serde(default)]
+    pub counters: BTreeMap<String, u64>,
 }
 
 #[derive(Serialize, Deserialize, Debug, Clone)]
@@ -198,7 +209,7 @@ pub fn worker<P: Prop>(tier: Tier, seed: u64, idx: usize, seed_idx: usize, cases
         cases: cases.min(u32::MAX as u64) as u32,
         rng_seed: RngSeed::Fixed(wseed),
         failure_persistence: None,
-        max_shrink_iters: if tier == Tier::Quick { 2000 } else { 6000 },
+        max_shrink_iters: if tier == Tier::Quick { P::SHRINK_ITERS } else { P::SHRINK_ITERS * 3 },
         max_global_rejects: 1 << 20,
         ..Config::default()
     };
@@ -255,6 +266,9 @@ pub fn worker<P: Prop>(tier: Tier, seed: u64, idx: usize, seed_idx: usize, cases
                         return Ok(());
                     }
                 }
+                if !is_frozen {
+                    st.counters = COUNTERS.with(|c| c.borrow().clone());
+                }
                 *frozen.borrow_mut() = true;
                 if first_fail.borrow().is_none() {
                     *first_fail.borrow_mut() = Some(v.clone());
@@ -264,6 +278,9 @@ pub fn worker<P: Prop>(tier: Tier, seed: u64, idx: usize, seed_idx: usize, cases
         }
     });
     let mut out = stats.into_inner();
+    if !*frozen.borrow() {
+        out.counters = COUNTERS.with(|c| c.borrow().clone());
+    }
     out.nontrivial_hashes = nt.into_inner().into_iter().collect();
     if let Err(e) = res {
         match e {
@@ -560,7 +577,11 @@ pub fn supervise(pi: PropInfo, args: SupArgs, replay_files: Vec<PathBuf>, simpli
     let mut foreign: BTreeMap<String, u64> = BTreeMap::new();
     let mut foreign_examples: BTreeMap<String, String> = BTreeMap::new();
     let mut samples: Vec<serde_json::Value> = Vec::new();
+    let mut counters: BTreeMap<String, u64> = BTreeMap::new();
     for r in &results {
+        for (k, v) in &r.counters {
+            *counters.entry(k.clone()).or_insert(0) += v;
+        }
         nt.extend(r.nontrivial_hashes.iter().copied());
         for (k, v) in &r.classes {
             *classes.entry(k.clone()).or_insert(0) += v;
@@ -590,6 +611,7 @@ pub fn supervise(pi: PropInfo, args: SupArgs, replay_files: Vec<PathBuf>, simpli
             "rule": pi.rule,
             "samples": samples,
             "class_histogram": classes,
+            "counters": counters,
             "excluded_known_findings": excluded,
             "foreign_failures_discarded": foreign,
             "foreign_failure_examples": foreign_examples,
